@@ -583,6 +583,26 @@ pub fn c12(ctx: &Ctx, acc: &mut Acc) {
                 }
             }
         }
+        // single structured edits (the classes of C15, on the uniquely named variant of the program):
+        // the checker rejects them on a correct tree (discards); whatever it accepts must still
+        // pass through every stage well-scoped and well-typed
+        let ucase = gen_fun_case(seed, mode, |p, _| p.naming = crate::gen_fun::NamePolicy::Unique);
+        let (text, sites) = crate::apr::print_prog_sites(&ucase.prog, crate::apr::Naming::Policy);
+        let classes = super::c15::CLASSES;
+        for k in 0..4 {
+            let class = if k == 0 { "variable-used-outside-its-scope" } else { classes[rng.below(classes.len())] };
+            let Some(m) = super::c15::mutate(&ucase.prog, &text, &sites, class, &mut rng) else { continue };
+            acc.evaluations += 1;
+            let before = acc.counters.get("accepted_programs").copied().unwrap_or(0);
+            let ok = c12_judge(acc, &m, &format!("gen_fun seed={seed} (unique names) single edit: {class}"));
+            let after = acc.counters.get("accepted_programs").copied().unwrap_or(0);
+            if after > before {
+                acc.count("edits_accepted_by_the_checker");
+                if ok {
+                    acc.nontrivial(crate::rng::hash_str(&m));
+                }
+            }
+        }
     }
     acc.add("programs", i);
 }
